@@ -112,6 +112,7 @@ class Analysis:
         self.src = src
         self.U = Unsupported
         self.fns = all_fns(src, Unsupported)
+        self.active = set()
 
     def fn_at(self, pos):
         best = None
@@ -171,6 +172,12 @@ class Analysis:
             if b and b[0] == 'new':
                 return self.expr(b[1], b[2], b[3], depth + 1)
             return [('raw', e)]
+        m = re.fullmatch(r"(%s)\.or\((.+)\)" % IDENT, e, re.S)
+        if m:
+            # Option::or: either operand
+            a = self.expr(m.group(1), fn, upto, depth + 1)
+            b = self.expr(m.group(2), fn, upto, depth + 1)
+            return [('alts', (('or-left', tuple(a)), ('or-right', tuple(b))))]
         m = re.fullmatch(r"(.+)\.map\(\|\s*(%s)\s*\|\s*(.+)\)" % IDENT, e, re.S)
         if m:
             return self.expr(m.group(3), fn, upto, depth + 1)
@@ -270,6 +277,16 @@ class Analysis:
             if idx >= len(args):
                 raise self.U("call of %s with too few arguments" % fn.name)
             if args[idx] == 'None':
+                continue
+            key = (fn.name, pname)
+            if f.name == fn.name:
+                if key in self.active:
+                    continue             # recursive call seen from inside its own resolution: no new source
+                self.active.add(key)
+                try:
+                    alts.append((f.name, self.expr(args[idx], f, pos, depth + 1)))
+                finally:
+                    self.active.discard(key)
                 continue
             alts.append((f.name, self.expr(args[idx], f, pos, depth + 1)))
         return [('alts', tuple((n, tuple(t)) for n, t in alts))]
